@@ -66,7 +66,8 @@ def optJ' (o : Option String) : Json :=
 
 def jSpecies (j : Json) : Except String Species := do
   pure { id := ← jStr (← field j "id"), comp := ← jStr (← field j "comp"), init := ← jOptRat (← field j "init"),
-         isAmount := ← jBool (← field j "isAmount"), hosu := ← jBool (← field j "hosu") }
+         isAmount := ← jBool (← field j "isAmount"), hosu := ← jBool (← field j "hosu"),
+         fixed := match j.getObjVal? "fixed" with | .ok (.bool b) => b | _ => false }
 
 def jFunDef (j : Json) : Except String FunDef := do
   pure { id := ← jStr (← field j "id"), params := ← jList jStr (← field j "params"), body := ← jMath (← field j "body") }
